@@ -28,7 +28,8 @@ CONSTANTS N,        \* number of replicas, named 1..N (the order of server uuids
           MergeRestamp, \* BOOLEAN: merged valueset content is re-stamped with the consumer's change id (fixed tree)
           NoSkew,   \* BOOLEAN: clocks are causally consistent (a write is stamped later than every change the
                     \* replica has already received); FALSE also explores replicas whose clock lags behind
-          EnableRename \* BOOLEAN: include renames into a shared name pool (needs the attrunique conflict model)
+          EnableRename, \* BOOLEAN: include renames into a shared name pool (needs the attrunique conflict model)
+          EnableClear   \* BOOLEAN: include purging the last-writer-wins attribute (value DnNone = attribute absent)
 
 Replicas == 1..N
 AllIds   == Ids \cup NewIds
@@ -106,6 +107,14 @@ SetDn(r, u, ts, v) ==
   /\ IsNormal(ent[r][u]) /\ Stamp(r, ts) /\ v \in {1, 2}
   /\ Write(r, u, [ent[r][u] EXCEPT !.dn = v, !.ch["dn"] = <<ts, r>>], <<ts, r>>,
            [op |-> "setdn", r |-> r, e |-> u, t |-> ts, v |-> v])
+
+\* purge of the attribute: the entry keeps a change id for an attribute it no longer has (entry.rs merge_state arms
+\* (Some, None) / (None, Some) / (None, None))
+DnNone == 9
+ClearDn(r, u, ts) ==
+  /\ EnableClear /\ IsNormal(ent[r][u]) /\ ent[r][u].dn # DnNone /\ Stamp(r, ts)
+  /\ Write(r, u, [ent[r][u] EXCEPT !.dn = DnNone, !.ch["dn"] = <<ts, r>>], <<ts, r>>,
+           [op |-> "cleardn", r |-> r, e |-> u, t |-> ts])
 
 Rename(r, u, ts, name) ==
   /\ EnableRename /\ IsNormal(ent[r][u]) /\ Stamp(r, ts) /\ NameFree(r, u, name) /\ ent[r][u].nm # name
@@ -196,6 +205,13 @@ ApplyOne(c, inc, db, tc) ==
              cf |-> IF db.at[2] = c THEN {[src_at |-> db.at, nm |-> db.nm, dn |-> db.dn]} ELSE {}]
   ELSE [e |-> MergeLive(inc, db, tc), cf |-> {}]
 
+\* which arm of merge_state's per-attribute match the last-writer-wins attribute takes: incoming (unsent / some /
+\* none) x local (some / none) x winner
+DnArm(inc, db) ==
+  "merge-dn-" \o (IF "dn" \notin inc.sent THEN "unsent" ELSE IF inc.dn = DnNone THEN "none" ELSE "some")
+     \o "-" \o (IF db.dn = DnNone THEN "none" ELSE "some")
+     \o "-" \o (IF "dn" \in inc.sent /\ CidLt(db.ch["dn"], inc.ch["dn"]) THEN "left" ELSE "right")
+
 \* name of the arm ApplyOne takes (for transition coverage of replayed behaviours)
 Arm(inc, db) ==
   IF inc.k = "tomb" THEN (IF db.k = "tomb" THEN "tomb-tomb" ELSE IF db.k = "absent" THEN "tomb-absent" ELSE "tomb-over-live")
@@ -205,6 +221,7 @@ Arm(inc, db) ==
   ELSE IF db.cls = "r" /\ "cls" \notin inc.sent THEN "merge-into-recycled"
   ELSE IF "cls" \in inc.sent /\ inc.cls = "r" /\ db.cls = "n" THEN "merge-recycle"
   ELSE IF "cls" \in inc.sent /\ inc.cls = "n" /\ db.cls = "r" THEN "merge-revive"
+  ELSE IF EnableClear THEN DnArm(inc, db)
   ELSE "merge"
 
 Repl(s, c, ts) ==
@@ -260,6 +277,7 @@ LocalWrite ==
   \E r \in Replicas, u \in AllIds, ts \in 1..MaxTs :
      \/ \E nm \in Names \cup {DefName(u)} : Create(r, u, ts, nm)
      \/ \E v \in {1, 2} : SetDn(r, u, ts, v)
+     \/ ClearDn(r, u, ts)
      \/ \E s \in Sids : AddSes(r, u, ts, s) \/ RevSes(r, u, ts, s)
      \/ Delete(r, u, ts) \/ Revive(r, u, ts) \/ Purge(r, u, ts)
      \/ \E nm \in Names : Rename(r, u, ts, nm)
